@@ -223,7 +223,9 @@ def mateHandler (m : CrossoverSpec.Method) : Handler := fun j => do
       if !inputWF then none
       else if !parentsIntact then some "parents-modified"
       else if shared != "" then some ("child-shares-state-with-parent:" ++ shared)
-      else CrossoverSpec.check bitEq m p1 p2 c f1 f2
+      else match CrossoverSpec.check bitEq m p1 p2 c f1 f2 with
+        | some w => some w
+        | none => if CrossoverSpec.avgAllMatchedOk bitEq m p1 p2 c then none else some "matched-gene-weight-not-the-mean"
     -- K1: single-point crossover of parents without a common first gene may return a gene-less child
     let sharedHead := (p1.genes.head?.map (·.inn)) == (p2.genes.head?.map (·.inn))
     let _ := sharedHead
